@@ -99,6 +99,24 @@ pub fn entry_points<F: Family>(p: &F::Packet, t: &mut Tape, ctx: &mut Ctx) -> Ca
             Err(e) => viol!("encode_async into a sink whose flush is not ready at first failed: {:?}", e),
         }
     }
+    // an async sink that reports ErrorKind::Interrupted on a later write of the same call, after it has taken a part, and
+    // works again afterwards (a signal arriving during a write on a file-backed or pipe sink): the encoder either hands
+    // the interruption on (then it claims nothing) or completes - and a call that reports success has written the
+    // encoding exactly once
+    if bytes.len() >= 2 {
+        let k = 1 + t.pick(bytes.len() - 1);
+        let isteps = [WStep::Accept(k), WStep::Interrupt, WStep::Accept(1 + t.pick(5)), WStep::Interrupt];
+        let mut w = ScriptedWriter::new(&isteps, bytes.len() * 3 + 16);
+        let (r, _) = sio::drive(F::encode_async(p, &mut w), bytes.len() * 3 + 32);
+        match r {
+            Ok(()) => ensure!(w.out == bytes, "encode_async into a sink that took {} bytes, then reported Interrupted, then went on: success reported but the sink received {} ({} bytes) instead of {} ({} bytes)", k, hex_short(&w.out, 48), w.out.len(), hex_short(&bytes, 48), bytes.len()),
+            Err(e) => {
+                ensure!(matches!(F::common(&e), Some(mqtt_proto::Error::IoError(std::io::ErrorKind::Interrupted, _))), "encode_async into a sink that reports Interrupted returned {:?}", e);
+                ensure!(bytes.starts_with(&w.out), "encode_async into a sink that reports Interrupted after {} bytes wrote {} which is not a prefix of the encoding {}", k, hex_short(&w.out, 48), hex_short(&bytes, 48));
+            }
+        }
+        ctx.label("async-sink-interrupted-mid-call");
+    }
     let partial = steps.iter().any(|s| matches!(s, WStep::Accept(k) if *k < bytes.len()));
     let pending = steps.iter().any(|s| *s == WStep::Pending);
     match async_into::<F>(p, &steps, false, bytes.len()) {
